@@ -11,6 +11,7 @@ import os
 import re
 import shlex
 import subprocess
+import threading
 import sys
 import time
 
@@ -152,7 +153,8 @@ def tree_hash(root=None):
 
 
 def _extract_one(unit, src, flags, files_re, fn_re, no_body, out, rest_light=False):
-    cmd = [OPMFACTS, "--out", out + ".tmp"]
+    tmp = "%s.%d.%d.tmp" % (out, os.getpid(), threading.get_ident())
+    cmd = [OPMFACTS, "--out", tmp]
     if files_re:
         cmd += ["--files", files_re]
     if fn_re:
@@ -163,11 +165,13 @@ def _extract_one(unit, src, flags, files_re, fn_re, no_body, out, rest_light=Fal
         cmd += ["--rest-light"]
     cmd += [src, "--", "clang++"] + flags
     p = subprocess.run(cmd, stdout=subprocess.PIPE, stderr=subprocess.PIPE, text=True)
-    if p.returncode != 0 or not os.path.exists(out + ".tmp"):
-        if os.path.exists(out + ".tmp"):
-            os.remove(out + ".tmp")
-        return unit, False, (p.stderr or "")[-2000:]
-    os.replace(out + ".tmp", out)
+    if p.returncode != 0 or not os.path.exists(tmp):
+        if os.path.exists(tmp):
+            os.remove(tmp)
+        if os.path.exists(out):       # another process running the same check produced it meanwhile
+            return unit, True, ""
+        return unit, False, ("exit %s " % p.returncode) + (p.stderr or "")[-2000:]
+    os.replace(tmp, out)
     return unit, True, ""
 
 
